@@ -57,7 +57,7 @@ def valid_data(rng, ies, nrec):
     for _ in range(nrec):
         toks = [G.well_typed_value(rng, ie, big_ok=False, maxlen=300) if ie.name != "" else
                 "x" + G.hexs(G.rand_bytes(rng, ie.len if ie.len < 65535 else G.rand_var_len(rng, False, 300))) for ie in ies]
-        recs.append(W.record_bytes(ies, toks))
+        recs.append(W.record_bytes(ies, toks, rng, 0.15))     # some variable-length values in the three-octet length form
     return b"".join(recs)
 
 
